@@ -283,6 +283,16 @@ Theorem c13_delete_leaves_other_paths_unchanged_example :
 Proof. exact delete_frame_example. Qed.
 Print Assumptions c13_delete_leaves_other_paths_unchanged_example.
 
+(* ... and the shift at any depth: after the deletion of element i of a list anywhere in the tree, what
+   was readable below a higher subscript i' of that list is readable, unchanged, below i' - 1
+   (c13_delete_shifts is the one-level case; the example above is an instance) *)
+Theorem c13_delete_shifts_at_any_depth (p : list expr) (i i' : Z) (es' : list expr) (n v : node) :
+  Forall plain_step p -> (0 <= i < i')%Z ->
+  descend_get (p ++ E_LIST_ELEMENT i' :: es') n = inr v ->
+  descend_get (p ++ E_LIST_ELEMENT (i' - 1) :: es') (delete_at (p ++ [E_LIST_ELEMENT i]) n) = inr v.
+Proof. intros Hp. exact (delete_shift_path p Hp i i' es' n v). Qed.
+Print Assumptions c13_delete_shifts_at_any_depth.
+
 (* delete removes the entry and shifts the higher indices down by one *)
 Theorem c13_delete_shifts (i : nat) (vec : list node) (al j : nat) :
   (i < length vec)%nat ->
